@@ -124,10 +124,14 @@ int cs_addrange(const u8 *a, unsigned char lo, unsigned char hi, u8 *a_out)
 // `return *this;` -> `return;`), compiled over a plain pointer stand-in for the member `chars_`.  This copy exists only
 // because a loop contract cannot be attached to a C++ member function (DESIGN 2 N-b) and 256 unwound iterations with a
 // symbolic index do not bit-blast in reasonable time; the member function itself runs on concrete arguments in `tables`.
+// Compiled only for the two targets that use it (CV_WITH_SLICE): a restyled addRange body that no longer fits the pointer
+// stand-in then makes only those targets undecided, not the whole unit.
+#ifdef CV_WITH_SLICE
 void cs_addrange_sliced(unsigned char *chars_, unsigned char low, unsigned char high)
 {
 #include "addrange_slice.inc"
 }
+#endif
 
 // membership and comparison
 int cs_member(const u8 *a, unsigned char c)
